@@ -102,8 +102,20 @@ poke(struct netbuf_write * W)
 {
 	struct writebuf * WB;
 
-	/* If a write is in progress or we have nothing to write, return. */
-	if ((W->write_cookie != NULL) || (STAILQ_EMPTY(&W->buffers)))
+	/* If a write is in progress, return. */
+	if (W->write_cookie != NULL)
+		return (0);
+
+	/* Discard empty buffers (from zero-length writes) at the head. */
+	while (((WB = STAILQ_FIRST(&W->buffers)) != NULL) &&
+	    (WB->datalen == 0)) {
+		STAILQ_REMOVE_HEAD(&W->buffers, entries);
+		free(WB->buf);
+		free(WB);
+	}
+
+	/* If we have nothing to write, return. */
+	if (STAILQ_EMPTY(&W->buffers))
 		return (0);
 
 	/* If we've failed, don't try to do anything more. */
